@@ -457,3 +457,7 @@ def units(tier):
 
 def selftest():
     return omia.selftest()
+
+
+# dimensions added after the fourth and fifth round of seeded changes (DESIGN.md 8.3, 8.4); part of the rule reported in the evidence
+RULE += ' Added with the fourth and fifth round of seeded changes: integer bin edges given as integer ndarrays (increasing / decreasing / constant step modulo 2^bits / swapped); uint8 / uint16 counters with more traces than the dtype can count in total.'
